@@ -42,6 +42,10 @@ CHECKS = {
    technique='deterministic simulation of store-building histories under a scripted clock (ties, backward jumps) followed by Locate requests from every requester; reference Locate model evaluated on the stored rows',
    text='Stores of 0-12 objects of all types, 3 owners, several policies, states, names, groups, application information and sensitive flags are created under a scripted clock that produces same-second ties and backward jumps; every requester (optionally with group lists) then issues Locate with conjunctions of 0-3 filters incl. filters not applicable to some stored types, one or two Initial Date filters, offset/maximum in 0..n+1, under all six versions. The answer must be exactly the permitted matching set, newest first (ties in any but a repeatable order), and pages must be the corresponding slices.',
    note='Reference semantics: an object matches a filter iff it has that attribute with that value; permission = C03 decision function. Requests the decoder refuses (e.g. Certificate Type under 2.0) are skipped and counted. Name filters use name type Uninterpreted Text String only.'),
+ 'C15': dict(level='exploration', ref='5/C15',
+   technique='deterministic simulation of attribute-operation histories (1.x index form and 2.0 current/new/reference form) with restarts; frame-condition oracle on the stored rows of every object plus an exact-change model',
+   text='Sequences of Set/Modify/DeleteAttribute over modifiable, protected, unsupported and unknown attribute names, index classes {absent, 0, in range, len, large, negative}, every object type, owner and non-owner, mixed with other operations and restarts. Before/after rows of every object: protected attributes (identifier, type, state, owner, policy name, usage mask, algorithm, length, initial date, value) never change; a successful call must equal apply(before, call) exactly (one instance changed or removed, nothing else anywhere); a failed call changes nothing; GetAttributes must reflect the stored rows.',
+   note='Ground truth is the content of the SQLite tables; the exact-change model is written from the property statement and KMIP attribute-operation semantics.'),
 }
 ALL = ['C%02d' % i for i in range(1, 21)]
 
